@@ -36,6 +36,14 @@ CONSTANTS N,           \* session objects 1..N (handed out in order of creation)
           Deviations,  \* named WRONG designs (vacuity guards): each must violate the clause it is aimed at
           RECORD       \* TRUE: keep the step record `last` (behaviour generation / trace validation)
 
+\* The wrong designs (each is a one-line change somewhere below; checks/lifecycle.py runs every one of them, every time, and requires TLC to report the clause named):
+\*   DetachTwiceOnCleanup -> DetachOnce            NoDetachOnCleanupForDucks -> NoLeak           EndRemovesFromTable -> TableAgrees
+\*   CallbackAfterDetach -> NoCallbackAfterDetach  DoubleCCC -> CCCOncePerConn                   CCCTrueStays -> MustGo
+\*   ReplaceKeepsOld, ReplaceFailTouchesOld -> Replace      FullBeforeAttach -> FullFlag         DormantConnects -> Dormant
+\*   NoReconnectOnPulse -> AutoReconnect           NoPlanForReconnect -> CCCResult               NullCreatesSession -> NullCreatesNothing
+\*   DucksNotFlushedAtEnd -> PumpFlushesDucks      FreeWhileAttached -> DestroyedDetached        QuitIgnored -> QuitStopsLoop
+\*   AttachTwice -> AttachOnce                     ConnectBeforeAttach -> AttachFirst            DetachWithoutAttach -> DetachOnlyAttached
+\*   FinalizeBySocket -> ConnectOutcomeOnce
 Dev(d) == d \in Deviations
 Range(q) == {q[i] : i \in 1..Len(q)}
 Without(q, x) == SelectSeq(q, LAMBDA y : y # x)
